@@ -12,7 +12,7 @@ from . import common, tlaparse
 from .common import Inconclusive
 
 # design variant of the model that mirrors the code under /repo
-DESIGN = dict(EchoStores="TRUE", SealOnClose="TRUE")
+DESIGN = dict(EchoStores="TRUE", SealOnClose="TRUE", LostGuard="TRUE")
 
 CONSTS = {
     "quick":    dict(MaxGen=2, MaxCommits=2, MaxArms=2, MaxDisc=1, MaxStale=0, NotifyCap=1, QCap=6),
